@@ -31,6 +31,7 @@ pub fn plan() -> Plan {
         quick_histories: 500,
         thorough_histories: 80000,
         s5: Some((2, 30, s4common::s5_default(false, 3))),
+        enumerate_session_end: None,
     }
 }
 
